@@ -70,20 +70,19 @@ Definition obj_first_lt (a b : dobj) : bool :=
 Inductive merge_res :=
 | MNone                      (* NULL: cannot merge *)
 | MKeepOld                   (* returns old, new is dropped *)
-| MReplace (ret_new : bool). (* hwloc_replace_linked_object(old, new); ret_new = the C code returns `new`,
-                                which hwloc_replace_linked_object has just zeroed (topology.c:1499-1501) *)
+| MReplace.                  (* hwloc_replace_linked_object(old, new), returns old (which now holds the contents of new) *)
 
 Definition try_merge_group (old new : dobj) (dm_old dm_new : bool) : merge_res :=
   let gnew := o_type new =? HWLOC_OBJ_GROUP in
   let gold := o_type old =? HWLOC_OBJ_GROUP in
   if gnew && gold then
-    if dm_new then (if dm_old then MNone else MReplace true)
+    if dm_new then (if dm_old then MNone else MReplace)
     else if dm_old then MKeepOld
-    else if (o_group_kind new <? o_group_kind old)%Z then MReplace false else MKeepOld
+    else if (o_group_kind new <? o_group_kind old)%Z then MReplace else MKeepOld
   else if gnew && negb dm_new then
     if (o_type old =? HWLOC_OBJ_PU) && (o_group_kind new =? Z.of_N HWLOC_GROUP_KIND_MEMORY)%Z then MNone else MKeepOld
   else if gold && negb dm_old then
-    if (o_type new =? HWLOC_OBJ_PU) && (o_group_kind old =? Z.of_N HWLOC_GROUP_KIND_MEMORY)%Z then MNone else MReplace false
+    if (o_type new =? HWLOC_OBJ_PU) && (o_group_kind old =? Z.of_N HWLOC_GROUP_KIND_MEMORY)%Z then MNone else MReplace
   else MNone.
 
 (* ---------- the put-back path (topology.c:1645-1664) ---------- *)
@@ -107,7 +106,7 @@ Inductive outcome :=
 | OInserted                          (* returns obj *)
 | OMergedKeep (into : option N)      (* returns an existing object (its gp_index); nothing linked *)
 | OMergedEqual (into : option N)     (* same, after merge_insert_equal(obj, child) *)
-| OReplaced (into_new : bool)        (* contents of an existing Group replaced; into_new = returned pointer is the zeroed `new` *)
+| OReplaced                          (* contents of an existing Group replaced by those of OBJ; returns that (linked) object *)
 | OFail.                             (* NULL after put-back *)
 
 Definition gp_in (dms : list N) (d : dobj) : bool :=
@@ -134,7 +133,7 @@ Definition replace_payload (old : obj) (d : dobj) : obj :=
 Inductive verdict :=
 | VMergeKeep                 (* try_merge_group kept the existing object: return it *)
 | VMergeEqual                (* same type, same sets: merge_insert_equal, return the existing object *)
-| VReplace (ret_new : bool)  (* existing Group overwritten with OBJ *)
+| VReplace                   (* existing Group overwritten with OBJ *)
 | VRecurse                   (* OBJ strictly included in CHILD: go deeper *)
 | VFail                      (* intersection without inclusion: put-back *)
 | VDifferent                 (* disjoint: CHILD stays, maybe record putp *)
@@ -145,7 +144,7 @@ Definition verdict_of (dms : list N) (dm_new : bool) (o c : dobj) : verdict :=
   | EQUAL =>
       match try_merge_group c o (gp_in dms c) dm_new with
       | MKeepOld => VMergeKeep
-      | MReplace rn => VReplace rn
+      | MReplace => VReplace
       | MNone =>
           match type_cmp o c with
           | EQUAL => VMergeEqual
@@ -186,7 +185,7 @@ Section Loop.
         match verdict_of dms dm_new (odata o) (odata c) with
         | VMergeKeep => stop c (OMergedKeep (o_gp (odata c)))
         | VMergeEqual => stop c (OMergedEqual (o_gp (odata c)))
-        | VReplace rn => stop (replace_payload c (odata o)) (OReplaced rn)
+        | VReplace => stop (replace_payload c (odata o)) OReplaced
         | VRecurse => let '(c', r) := rec c o in stop c' r
         | VFail =>
             (* put-back: from putp if known, else from the start of CUR's list *)
